@@ -3,7 +3,7 @@
     bit-vector init into an array state), outputs, constraints, bad states, next lines. *)
 From Coq Require Import List Lia Bool String Ascii NArith FMapPositive.
 From Patronus Require Import Expr ExprLemmas ExprEqb Eval SysClosed Btor2Parse Btor2Ser Btor2ExprFacts Btor2ParseProofs
-     Btor2Sound Btor2SerProofs Btor2RtExpr Btor2RtLines Btor2RtSim.
+     Btor2Sound Btor2SerProofs Btor2RoundTripSpec Btor2RtExpr Btor2RtLines Btor2RtSim.
 Import ListNotations.
 Open Scope string_scope.
 Open Scope list_scope.
@@ -704,8 +704,6 @@ Proof.
   - reflexivity.
   - intros s e [].
 Qed.
-
-Definition sys_fits (sy : sys) : bool := forallb efits (all_exprs sy).
 
 Lemma emit_states_len l : forall st st' ids, emit_states st l = POk (st', ids) -> List.length ids = List.length l.
 Proof.
